@@ -12,6 +12,7 @@ import (
 	"fmt"
 	"net/url"
 	"sort"
+	"strconv"
 	"strings"
 	"testing"
 	"time"
@@ -807,6 +808,55 @@ func vc08GenNames(r *vRand) vc08Case {
 
 func protoMarshalV(m *pb.Pin) ([]byte, error) { return proto.Marshal(m) }
 
+// ---------------------------------------------------------------- byte-level stored form
+func vc08Bytes(b []byte) string {
+	xs := make([]string, len(b))
+	for i, x := range b {
+		xs[i] = strconv.Itoa(int(x))
+	}
+	return "[" + strings.Join(xs, ";") + "]"
+}
+
+func vc08RunWire(out *vOut, c vc08Case) {
+	c.Msg.Old = nil
+	msg, _ := c.Msg.build()
+	det, err := proto.MarshalOptions{Deterministic: true}.Marshal(msg)
+	if err != nil {
+		panic(err)
+	}
+	real, err := proto.Marshal(msg)
+	if err != nil {
+		panic(err)
+	}
+	list := func(bs [][]byte) string {
+		xs := make([]string, len(bs))
+		for i, b := range bs {
+			xs[i] = vc08Bytes(b)
+		}
+		return cqList(xs)
+	}
+	opts := "None"
+	if o := msg.Options; o != nil {
+		keys := make([]string, 0, len(o.Metadata))
+		for k := range o.Metadata {
+			keys = append(keys, k)
+		}
+		sort.Strings(keys)
+		es := make([]string, len(keys))
+		for i, k := range keys {
+			es[i] = "(" + vc08Bytes([]byte(k)) + ", " + vc08Bytes([]byte(o.Metadata[k])) + ")"
+		}
+		opts = fmt.Sprintf("(Some (mk_wopts %s %s %s %s %s %s %s %s))", vc08Z(int64(o.ReplicationFactorMin)), vc08Z(int64(o.ReplicationFactorMax)),
+			vc08Bytes([]byte(o.Name)), vc08N(o.ShardSize), cqList(es), vc08Bytes(o.PinUpdate), vc08N(o.ExpireAt), list(o.Origins))
+	}
+	term := fmt.Sprintf("(mk_wpin %s %s %s %s %s %s)", vc08Bytes(msg.Cid), vc08N(uint64(int64(msg.Type))), list(msg.Allocations),
+		vc08Z(int64(msg.MaxDepth)), vc08Bytes(msg.Reference), opts)
+	out.count("wire")
+	out.add(fmt.Sprintf("CWire %s %s %s", term, vc08Bytes(det), vc08Bytes(real)), c, hexString(real), true)
+}
+
+func hexString(b []byte) string { return fmt.Sprintf("%x", b) }
+
 func vc08Gen(r *vRand) vc08Case {
 	switch x := r.intn(100); {
 	case x < 20:
@@ -822,8 +872,12 @@ func vc08Gen(r *vRand) vc08Case {
 		return vc08GenQRaw(r)
 	case x < 66:
 		return vc08GenNames(r)
-	case x < 88:
+	case x < 86:
 		return vc08GenCodec(r)
+	case x < 91:
+		m := vc08GenMsg(r)
+		m.Old = nil
+		return vc08Case{Kind: "wire", Msg: &m}
 	default:
 		return vc08GenEq(r)
 	}
@@ -857,6 +911,10 @@ func vc08Run(out *vOut, c vc08Case) {
 		case "fuzz":
 			if c.Fuzz != nil {
 				vc08RunFuzzCase(out, c)
+			}
+		case "wire":
+			if c.Msg != nil {
+				vc08RunWire(out, c)
 			}
 		}
 	})
